@@ -16,6 +16,7 @@ import GeomVerif.Driver.C11
 import GeomVerif.Driver.C12
 import GeomVerif.Driver.C15
 import GeomVerif.Driver.C14
+import GeomVerif.Driver.C13
 import GeomVerif.Driver.C16
 import GeomVerif.Driver.C20
 
@@ -31,6 +32,7 @@ def dispatch (op : String) (inp go : Sexp) : Option Reply :=
   else if op.startsWith "C10." then Driver.C10.handle op inp go
   else if op.startsWith "C11." then Driver.C11.handle op inp go
   else if op.startsWith "C12." then Driver.C12.handle op inp go
+  else if op.startsWith "C13." then Driver.C13.handle op inp go
   else if op.startsWith "C14." then Driver.C14.handle op inp go
   else if op.startsWith "C15." then Driver.C15.handle op inp go
   else if op.startsWith "C16." then Driver.C16.handle op inp go
